@@ -11,6 +11,7 @@ def parseOps : List String → Bytes → Option (List HOp)
     match t.splitOn ":" with
     | ["z"] => (parseOps ts src).map (HOp.z :: ·)
     | ["c"] => (parseOps ts src).map (HOp.c :: ·)
+    | ["x"] => (parseOps ts src).map (HOp.x :: ·)
     | ["w", n] => do
       let n ← n.toNat?
       if src.length < n then none else
@@ -88,6 +89,11 @@ def handle (line : String) : String :=
       let r := KGo.keccakfGo s
       toHex ([r.a0, r.a1, r.a2, r.a3, r.a4, r.a5, r.a6, r.a7, r.a8, r.a9, r.a10, r.a11, r.a12, r.a13, r.a14,
         r.a15, r.a16, r.a17, r.a18, r.a19, r.a20, r.a21, r.a22, r.a23, r.a24].flatMap u64le)
+    | none => "bad-op"
+  else if o.cmd == "acc" then                       -- Size() / BlockSize() of a fresh object
+    match mkObj (o.str "fn") [1] [2] with
+    | some (.fixed d) | some (.legacy d) => s!"size={d.outLen} block={d.rate}"
+    | some (.shake w) => s!"size={w.outputLen} block={w.inner.rate}"
     | none => "bad-op"
   else if o.cmd == "one" then
     match o.hex? "src", o.nat? "len" with
